@@ -32,7 +32,7 @@ def gen_schema(rng):
     nent = rng.choice([1, 2, 2, 3, 3, 4])
     ents = []
     for e in range(nent):
-        ents.append({'pk': 'comp' if rng.random() < 0.2 else 'int', 'lazy_s': rng.random() < 0.5, 'lazy_v': rng.random() < 0.2})
+        ents.append({'pk': 'comp' if rng.random() < 0.2 else 'int', 'lazy_s': rng.random() < 0.5, 'lazy_v': rng.random() < 0.2, 'sub': rng.random() < 0.3})
     rels = []
     for i in range(rng.choice([1, 2, 2, 3, 3, 4])):
         kind = rng.choice(['o2o', 'm2o', 'm2o', 'm2o', 'm2m', 'm2m', 'sym1', 'symm'])
@@ -96,18 +96,25 @@ class World(object):
                     at.composite_keys.append((attrs, i))
                 d['_indexes_'] = [core.Index(*attrs, is_pk=True)]
             self.classes.append(type('E%d' % e, (db.Entity,), d))
+        # inheritance: a subclass with one more attribute (rows of both classes share the table; references and collections yield seeds of the BASE class
+        # whose real class is learnt when the row is loaded: Attribute.get / Set.copy / _fetch_objects call _load_ / _load_many_ for that)
+        self.subclasses = {}
+        for e, spec in enumerate(schema['ents']):
+            if spec.get('sub'): self.subclasses[e] = type('E%ds' % e, (self.classes[e],), {'x': Optional(int, lazy=lazy)})
         db.bind('sqlite', path, create_db=create, **self.tracer.bind_kwargs())
         db.generate_mapping(create_tables=create)
-        self.pf = list(self.classes)
-        for cls in self.classes:
+        self.pf = list(self.classes) + list(self.subclasses.values())
+        for cls in self.classes + list(self.subclasses.values()):
             for a in cls._attrs_:
                 if a.is_collection or (a.lazy and not a.is_pk): self.pf.append(a)
 
     def pkargs(self, e, pk):
         return {'id': pk} if self.schema['ents'][e]['pk'] == 'int' else {'a': pk // 100, 'b': pk % 100}
+    def eidx(self, o):
+        return self.classes.index(type(o)._root_)
     def pkof(self, o):
         if o is None: return None
-        e = self.classes.index(type(o))
+        e = self.eidx(o)
         return o.id if self.schema['ents'][e]['pk'] == 'int' else o.a * 100 + o.b
     def fetch(self, e, pk):
         E = self.classes[e]
@@ -127,7 +134,7 @@ class World(object):
 
 
 def canon_val(w, v):
-    if isinstance(v, core.Entity): return ['obj', w.classes.index(type(v)), w.pkof(v)]
+    if isinstance(v, core.Entity): return ['obj', w.eidx(v), w.pkof(v)]
     return v
 
 
@@ -191,12 +198,28 @@ def exec_op(w, op):
             return ['ok', sorted([w.pkof(o), None if getattr(o, op[2]) is None else getattr(getattr(o, op[2]), 'tag')] for o in w.q(E.select()))]
         if k == 'create':
             kw = dict(w.pkargs(op[1], op[2])); kw.update(tag=op[3], v=op[4], s=op[5])
+            if len(op) > 8 and op[8] is not None and op[1] in w.subclasses: E = w.subclasses[op[1]]; kw['x'] = op[8]
             for name, t in op[6]:
                 x = w.fetch(t[0], t[1])
                 if x is not None: kw[name] = x
             for name, ts in op[7]:
                 kw[name] = [x for x in (w.fetch(t[0], t[1]) for t in ts) if x is not None]
             E(**kw); return ['ok', None]
+        if k == 'navcls':
+            o = w.fetch(op[1], op[2])
+            if o is None: return ['absent']
+            t = getattr(o, op[3])
+            return ['ok', None if t is None else [type(t).__name__, getattr(t, 'x', 'no x'), t.tag]]
+        if k == 'collcls':
+            o = w.fetch(op[1], op[2])
+            if o is None: return ['absent']
+            return ['ok', sorted([w.pkof(i), type(i).__name__, getattr(i, 'x', 'no x')] for i in getattr(o, op[3]))]
+        if k == 'selcls':
+            return ['ok', sorted([w.pkof(o), type(o).__name__, getattr(o, 'x', 'no x')] for o in w.q(w.classes[op[1]].select()))]
+        if k == 'subsel':
+            S = w.subclasses.get(op[1])
+            if S is None: return ['ok', 'no subclass']
+            return ['ok', sorted([w.pkof(o), o.x, o.tag] for o in w.q(select(o for o in S if o.tag >= op[2])))]
         if k == 'seedwrite':
             # load-path variants x write-before-read: an object reached through a reference (an unloaded reference unless the strategy loaded it eagerly)
             # gets a plain attribute WRITTEN before anything of it is read; then something loads its row while flushing is disabled:
@@ -331,7 +354,8 @@ def gen_population(rng, schema):
                     elif req: ok = False
                 if not ok: continue
                 cv = [[name, [[t, x] for x in rng.sample(made[t], min(len(made[t]), rng.choice([0, 1, 2, 3])))]] for name, t in colls[e] if made[t]]
-                pop.append(['create', e, pk, rng.choice([0, 1, 2, 3]), rng.choice([None, 5, 7]), rng.choice([None, 'x', 'yy']), rv, cv])
+                pop.append(['create', e, pk, rng.choice([0, 1, 2, 3]), rng.choice([None, 5, 7]), rng.choice([None, 'x', 'yy']), rv, cv,
+                            rng.choice([None, 41, 42]) if schema['ents'][e].get('sub') else None])
                 made[e].append(pk)
     return pop
 
@@ -340,10 +364,16 @@ def gen_obs(rng, schema):
     e = rng.randrange(len(schema['ents']))
     pk = rng.choice(pks_of(schema, e) + [9])
     scal = rng.choice(['tag', 'v', 's'])
-    kinds = ['get', 'attr', 'attr', 'select', 'iterattr', 'load']
-    if refs[e]: kinds += ['attrref', 'nav', 'selectrel', 'navall', 'attrref']
+    kinds = ['get', 'attr', 'attr', 'select', 'iterattr', 'load', 'selcls']
+    if schema['ents'][e].get('sub'): kinds += ['subsel', 'selcls']
+    if refs[e]: kinds += ['attrref', 'nav', 'selectrel', 'navall', 'attrref', 'navcls', 'navcls']
+    if colls[e]: kinds += ['collcls', 'collcls']
     if colls[e]: kinds += ['coll', 'count', 'empty', 'len', 'contains', 'contains', 'itercoll', 'itercount', 'collload', 'coll', 'empty', 'count']
     k = rng.choice(kinds)
+    if k == 'selcls': return ['selcls', e]
+    if k == 'subsel': return ['subsel', e, rng.choice([0, 1, 2])]
+    if k == 'navcls': return ['navcls', e, pk, rng.choice(refs[e])[0]]
+    if k == 'collcls': return ['collcls', e, pk, rng.choice(colls[e])[0]]
     if k == 'get': return ['get', e, pk]
     if k == 'attr': return ['attr', e, pk, scal]
     if k == 'attrref': return ['attr', e, pk, rng.choice(refs[e])[0]]
@@ -397,7 +427,7 @@ def gen_mod(rng, schema):
         pk = (10 + FRESH[0]) if schema['ents'][e]['pk'] == 'int' else (400 + FRESH[0])     # never an existing row: a duplicate key is detected at different moments
         rv = [[name, [t, rng.choice(pks_of(schema, t))]] for name, t, req in refs[e] if req or rng.random() < 0.5]
         cv = [[name, [[t, rng.choice(pks_of(schema, t))]]] for name, t in colls[e] if rng.random() < 0.4]
-        return ['create', e, pk, rng.choice([0, 1, 2]), rng.choice([None, 5]), rng.choice([None, 'n']), rv, cv]
+        return ['create', e, pk, rng.choice([0, 1, 2]), rng.choice([None, 5]), rng.choice([None, 'n']), rv, cv, rng.choice([None, 43]) if schema['ents'][e].get('sub') else None]
     if k == 'setref':
         name, t, req = rng.choice(refs[e])
         if rng.random() < 0.25 and not req: return ['setref', e, pk, name, None, None]
@@ -444,7 +474,7 @@ class Tie(object):
     def __init__(self, ctx, schema, strategy):
         self.ctx = ctx; self.schema = schema; self.strategy = strategy
         self.requests = []        # (request, real answer, real how, real set after, description)
-        self.ok = all(e['pk'] == 'int' for e in schema['ents'])
+        self.ok = all(e['pk'] == 'int' and not e.get('sub') for e in schema['ents'])
     def oid(self, e, pk): return e * 1000 + pk
     def begin(self, w, path):
         if not self.ok: return
